@@ -1,6 +1,7 @@
 //! `json <k>` (serialization succeeds and re-parses), `jsonsub <k>` (the modelled subset of the
 //! header part of the JSON rendering, extracted from what serde_json actually produced),
 //! `jsonsub <k> <field>` (one top-level member of the document, whole, in canonical text),
+//! `jsontext <k> <field>` (the exact text of that member, hex),
 //! `relocs <k> dump`.
 use crate::util::*;
 use crate::State;
@@ -134,6 +135,27 @@ fn canon(j: &J, out: &mut String) {
 	}
 }
 
+/// `jsontext <k> <field>`: the exact bytes serde_json wrote for the named top-level member (hex)
+fn member_text(text: &str, field: &str) -> String {
+	let mut rd = Rd { s: text.as_bytes(), i: 0 };
+	let r: Result<Option<(usize, usize)>, String> = (|| {
+		rd.eat(b"{")?;
+		if rd.peek() == Some(b'}') { return Ok(None); }
+		loop {
+			let k = rd.string()?; rd.eat(b":")?;
+			let st = rd.i;
+			rd.val(1)?;
+			if k == field.as_bytes() { return Ok(Some((st, rd.i))); }
+			match rd.peek() { Some(b',') => rd.i += 1, Some(b'}') => return Ok(None), _ => return Err(format!("expected , or }} at {}", rd.i)) }
+		}
+	})();
+	match r {
+		Err(e) => format!("malformed {}", e),
+		Ok(None) => "missing".to_string(),
+		Ok(Some((a, b))) => format!("ok {}", hex(&text.as_bytes()[a..b])),
+	}
+}
+
 /// `jsonsub <k> <field>`: the named top-level member of the real document
 fn sub_field(text: &str, field: &str) -> String {
 	match read_json(text) {
@@ -180,6 +202,7 @@ pub fn dispatch(st: &mut State, fam: &str, rest: &str) -> Option<String> {
 			Err(e) => format!("fail {}", e) } }) },
 		("jsonsub", 1) => { let k = a[0]; with_any!(st, k, g, p => { let _ = g; match serde_json::to_value(&p) { Ok(v) => sub(&v), Err(e) => format!("fail {}", e) } }) },
 		("jsonsub", 2) => { let k = a[0]; with_any!(st, k, g, p => { let _ = g; match serde_json::to_string(&p) { Ok(js) => sub_field(&js, a[1]), Err(e) => format!("fail {}", e) } }) },
+		("jsontext", 2) => { let k = a[0]; with_any!(st, k, g, p => { let _ = g; match serde_json::to_string(&p) { Ok(js) => member_text(&js, a[1]), Err(e) => format!("fail {}", e) } }) },
 		("relocs", 2) if a[1] == "dump" => { let k = a[0]; with_any!(st, k, g, p => match p.base_relocs() {
 			Ok(br) => {
 				let mut blocks = Vec::new();
